@@ -16,4 +16,32 @@ theorem C07_translated_can_append_to (a : Atom) :
   cases hn : a.negative <;> cases hk : a.kind <;> simp [AtomKind.id] <;>
     (split <;> simp_all)
 
+/-- **`MultiPattern::reparse`'s status decision, with the repair of F16, is the model's `reparseStatus`** — the atoms'
+    `normalize` flags stand for `normalizes(atom)` (under smart normalization the flag is on exactly when no character of
+    the needle text is changed by normalization: `C14_one_grammar`, `nzSpec`) -/
+theorem C07_translated_reparse_status (old : PStatus) (oldAtoms newAtoms : List Atom) (append : Bool) :
+    (reparseStatus old oldAtoms newAtoms append).rank =
+      Gen.Rules.reparse_status append old.rank
+        (match oldAtoms.getLast? with | none => true | some a => Gen.Rules.can_append_to a.negative a.kind.id a.needle.getLast?)
+        true (oldAtoms.getLast?.map (·.normalize)) (newAtoms[oldAtoms.length - 1]?.map (·.normalize)) := by
+  unfold reparseStatus Gen.Rules.reparse_status normKept
+  cases hl : oldAtoms.getLast? with
+  | none =>
+    cases old <;> cases append <;> simp [PStatus.rank]
+  | some a =>
+    have e := C07_translated_can_append_to a
+    simp only [← e]
+    cases hb : newAtoms[oldAtoms.length - 1]? with
+    | none =>
+      simp only [Option.map]
+      rcases Bool.eq_false_or_eq_true (lastAtomAllowsUpdate a) with h1 | h1 <;>
+      rcases Bool.eq_false_or_eq_true a.normalize with h2 | h2 <;>
+      cases old <;> cases append <;> simp [PStatus.rank, h1, h2]
+    | some b =>
+      simp only [Option.map]
+      rcases Bool.eq_false_or_eq_true (lastAtomAllowsUpdate a) with h1 | h1 <;>
+      rcases Bool.eq_false_or_eq_true a.normalize with h2 | h2 <;>
+      rcases Bool.eq_false_or_eq_true b.normalize with h3 | h3 <;>
+      cases old <;> cases append <;> simp [PStatus.rank, h1, h2, h3]
+
 end NucleoVerif
